@@ -380,6 +380,12 @@ def finish(prop, tier, level, t0, violations, coverage, assumptions=None, inconc
     for sig in sorted(open_sigs):
         if sig not in matched:
             log("note: known finding %s was not exercised by this run" % sig)
+    if os.environ.get("VERIF_REPLAY"):
+        # replay of one recorded case: report whether the violation shows again; no evidence
+        # file, no coverage thresholds
+        print("REPLAY property=%s reproduced=%s signatures=%s" % (
+            prop, bool(by_sig), sorted(by_sig)[:6]))
+        sys.exit(1 if by_sig else 0)
     cov = dict(coverage)
     cov.setdefault("tree_sha", tree_key())
     cov["known_findings_matched"] = matched
